@@ -18,6 +18,16 @@
  *   err <errno>    fail the call with <errno> without performing it
  *   crash          _exit(137) before performing the call
  *   eof            read() returns 0 without reading: the file ends before its announced size
+ *   quota <bytes>  (index ignored) the simulated disk takes <bytes> more bytes in all, over all tracked
+ *                  writes of the incarnation; the write that crosses the limit is cut short, every later
+ *                  one fails with ENOSPC (a disk that fills up and stays full)
+ * Status calls on tracked descriptors (statx, fstat) have an index space of their own, the k-th such call:
+ *   statsize <k> <size>   report st_size = <size> (the file grows or shrinks between stat and read;
+ *                         procfs-like files announce 0)
+ *   staterr <k> <errno>   fail the call
+ * readv/writev/pread/pwrite on tracked descriptors count as read/write; rename, unlink, ftruncate, fsync and
+ * fdatasync on tracked files are traced and can be failed with `err` (they are calls of the common index
+ * space; the unchanged program makes none of them).
  * Trace file (VERIF_TRACE), one line per tracked call:
  *   <index> <call> <fd> <path-or-dash> <requested> <result> <errno> <fault-or-dash>
  */
@@ -30,14 +40,16 @@
 #include <stdio.h>
 #include <stdlib.h>
 #include <string.h>
+#include <sys/stat.h>
 #include <sys/syscall.h>
 #include <sys/types.h>
+#include <sys/uio.h>
 #include <unistd.h>
 
 #define MAX_FD 4096
 #define MAX_PLAN 256
 
-enum kind { K_NONE = 0, K_EINTR, K_SHORT, K_ERR, K_CRASH, K_EOF };
+enum kind { K_NONE = 0, K_EINTR, K_SHORT, K_ERR, K_CRASH, K_EOF, K_STATSIZE, K_STATERR };
 
 struct entry {
     long idx;
@@ -54,6 +66,9 @@ static long trace_lines = 0;
 static struct entry plan[MAX_PLAN];
 static int plan_len = 0;
 static long call_index = 0;
+static long stat_index = 0;
+static long quota_left = -1; /* < 0: no quota */
+static int disk_full = 0;
 static int trace_fd = -1;
 static const char *root = NULL;
 static size_t root_len = 0;
@@ -68,6 +83,18 @@ static ssize_t (*real_read)(int, void *, size_t) = NULL;
 static ssize_t (*real_write)(int, const void *, size_t) = NULL;
 static int (*real_close)(int) = NULL;
 static ssize_t (*real_getrandom)(void *, size_t, unsigned int) = NULL;
+static int (*real_statx)(int, const char *, int, unsigned int, struct statx *) = NULL;
+static int (*real_fstat)(int, struct stat *) = NULL;
+static int (*real_fstat64)(int, struct stat64 *) = NULL;
+static ssize_t (*real_readv)(int, const struct iovec *, int) = NULL;
+static ssize_t (*real_writev)(int, const struct iovec *, int) = NULL;
+static ssize_t (*real_pread)(int, void *, size_t, off_t) = NULL;
+static ssize_t (*real_pwrite)(int, const void *, size_t, off_t) = NULL;
+static int (*real_rename)(const char *, const char *) = NULL;
+static int (*real_unlink)(const char *) = NULL;
+static int (*real_ftruncate)(int, off_t) = NULL;
+static int (*real_fsync)(int) = NULL;
+static int (*real_fdatasync)(int) = NULL;
 
 static uint64_t splitmix(uint64_t *s) {
     uint64_t z = (*s += 0x9E3779B97F4A7C15ULL);
@@ -98,6 +125,18 @@ static void init(void) {
     real_write = dlsym(RTLD_NEXT, "write");
     real_close = dlsym(RTLD_NEXT, "close");
     real_getrandom = dlsym(RTLD_NEXT, "getrandom");
+    real_statx = dlsym(RTLD_NEXT, "statx");
+    real_fstat = dlsym(RTLD_NEXT, "fstat");
+    real_fstat64 = dlsym(RTLD_NEXT, "fstat64");
+    real_readv = dlsym(RTLD_NEXT, "readv");
+    real_writev = dlsym(RTLD_NEXT, "writev");
+    real_pread = dlsym(RTLD_NEXT, "pread64");
+    real_pwrite = dlsym(RTLD_NEXT, "pwrite64");
+    real_rename = dlsym(RTLD_NEXT, "rename");
+    real_unlink = dlsym(RTLD_NEXT, "unlink");
+    real_ftruncate = dlsym(RTLD_NEXT, "ftruncate64");
+    real_fsync = dlsym(RTLD_NEXT, "fsync");
+    real_fdatasync = dlsym(RTLD_NEXT, "fdatasync");
 
     const char *e = getenv("VERIF_ENTROPY");
     if (e && *e) {
@@ -132,6 +171,9 @@ static void init(void) {
                 else if (!strcmp(kind, "err")) en.kind = K_ERR;
                 else if (!strcmp(kind, "crash")) en.kind = K_CRASH;
                 else if (!strcmp(kind, "eof")) en.kind = K_EOF;
+                else if (!strcmp(kind, "statsize")) en.kind = K_STATSIZE;
+                else if (!strcmp(kind, "staterr")) en.kind = K_STATERR;
+                else if (!strcmp(kind, "quota")) { quota_left = arg < 0 ? 0 : arg; continue; }
                 if (en.kind != K_NONE) plan[plan_len++] = en;
             }
             active = 1;
@@ -148,7 +190,13 @@ static int path_tracked(const char *path) {
 
 static struct entry *lookup(long idx) {
     for (int i = 0; i < plan_len; i++)
-        if (plan[i].idx == idx) return &plan[i];
+        if (plan[i].idx == idx && plan[i].kind != K_STATSIZE && plan[i].kind != K_STATERR) return &plan[i];
+    return NULL;
+}
+
+static struct entry *lookup_stat(long idx) {
+    for (int i = 0; i < plan_len; i++)
+        if (plan[i].idx == idx && (plan[i].kind == K_STATSIZE || plan[i].kind == K_STATERR)) return &plan[i];
     return NULL;
 }
 
@@ -242,37 +290,48 @@ int openat(int dirfd, const char *path, int flags, ...) {
     return do_open("openat", dirfd, path, flags, mode, 0);
 }
 
-ssize_t read(int fd, void *buf, size_t count) {
-    init();
-    if (fd < 0 || fd >= MAX_FD || !tracked[fd]) return real_read(fd, buf, count);
-    long idx = call_index++;
+/* Decision for a tracked read-like call: -1 fail (errno in *err), 0 with *fault == "eof" premature end, else count to pass on */
+static long read_decision(long idx, const char *call, int fd, size_t count, const char **fault, int *err) {
     struct entry *en = lookup(idx);
-    size_t want = count;
-    const char *fault = NULL;
+    *fault = NULL;
     if (at_eof[fd]) {
-        trace(idx, "read", fd, NULL, (long)count, 0, 0, "eof");
+        *fault = "eof";
         return 0;
     }
     if (en) {
-        if (en->kind == K_CRASH) crash_now(idx, "read", fd, NULL, (long)count);
+        if (en->kind == K_CRASH) crash_now(idx, call, fd, NULL, (long)count);
         if (en->kind == K_EINTR || en->kind == K_ERR) {
-            int e = en->kind == K_EINTR ? EINTR : (int)en->arg;
-            trace(idx, "read", fd, NULL, (long)count, -1, e, en->kind == K_EINTR ? "eintr" : "err");
-            errno = e;
+            *err = en->kind == K_EINTR ? EINTR : (int)en->arg;
+            *fault = en->kind == K_EINTR ? "eintr" : "err";
             return -1;
         }
         if (en->kind == K_EOF) {
             /* premature end of file: the file was cut short after it was opened */
-            trace(idx, "read", fd, NULL, (long)count, 0, 0, "eof");
             at_eof[fd] = 1;
+            *fault = "eof";
             return 0;
         }
         if (en->kind == K_SHORT && en->arg >= 1 && (size_t)en->arg < count) {
-            want = (size_t)en->arg;
-            fault = "short";
+            *fault = "short";
+            return en->arg;
         }
     }
-    ssize_t r = real_read(fd, buf, want);
+    return (long)count;
+}
+
+ssize_t read(int fd, void *buf, size_t count) {
+    init();
+    if (fd < 0 || fd >= MAX_FD || !tracked[fd]) return real_read(fd, buf, count);
+    long idx = call_index++;
+    const char *fault = NULL;
+    int ferr = 0;
+    long want = read_decision(idx, "read", fd, count, &fault, &ferr);
+    if (want < 0 || (fault && !strcmp(fault, "eof"))) {
+        trace(idx, "read", fd, NULL, (long)count, want < 0 ? -1 : 0, want < 0 ? ferr : 0, fault);
+        if (want < 0) errno = ferr;
+        return want < 0 ? -1 : 0;
+    }
+    ssize_t r = real_read(fd, buf, (size_t)want);
     int e = errno;
     /* a shortened read only counts as delivered if it actually returned fewer bytes than were available */
     trace(idx, "read", fd, NULL, (long)count, (long)r, r < 0 ? e : 0, (fault && r == (ssize_t)want) ? fault : NULL);
@@ -280,31 +339,169 @@ ssize_t read(int fd, void *buf, size_t count) {
     return r;
 }
 
+ssize_t pread64(int fd, void *buf, size_t count, off_t off) {
+    init();
+    if (fd < 0 || fd >= MAX_FD || !tracked[fd]) return real_pread(fd, buf, count, off);
+    long idx = call_index++;
+    const char *fault = NULL;
+    int ferr = 0;
+    long want = read_decision(idx, "read", fd, count, &fault, &ferr);
+    if (want < 0 || (fault && !strcmp(fault, "eof"))) {
+        trace(idx, "read", fd, NULL, (long)count, want < 0 ? -1 : 0, want < 0 ? ferr : 0, fault);
+        if (want < 0) errno = ferr;
+        return want < 0 ? -1 : 0;
+    }
+    ssize_t r = real_pread(fd, buf, (size_t)want, off);
+    int e = errno;
+    trace(idx, "read", fd, NULL, (long)count, (long)r, r < 0 ? e : 0, (fault && r == (ssize_t)want) ? fault : NULL);
+    errno = e;
+    return r;
+}
+
+ssize_t pread(int fd, void *buf, size_t count, off_t off) { return pread64(fd, buf, count, off); }
+
+ssize_t readv(int fd, const struct iovec *iov, int iovcnt) {
+    init();
+    if (fd < 0 || fd >= MAX_FD || !tracked[fd]) return real_readv(fd, iov, iovcnt);
+    size_t count = 0;
+    for (int i = 0; i < iovcnt; i++) count += iov[i].iov_len;
+    long idx = call_index++;
+    const char *fault = NULL;
+    int ferr = 0;
+    long want = read_decision(idx, "read", fd, count, &fault, &ferr);
+    if (want < 0 || (fault && !strcmp(fault, "eof"))) {
+        trace(idx, "read", fd, NULL, (long)count, want < 0 ? -1 : 0, want < 0 ? ferr : 0, fault);
+        if (want < 0) errno = ferr;
+        return want < 0 ? -1 : 0;
+    }
+    ssize_t done = 0;
+    int e = 0;
+    for (int i = 0; i < iovcnt && done < want; i++) {
+        size_t n = iov[i].iov_len;
+        if ((long)n > want - done) n = (size_t)(want - done);
+        if (n == 0) continue;
+        ssize_t r = real_read(fd, iov[i].iov_base, n);
+        if (r < 0) {
+            e = errno;
+            if (done == 0) done = -1;
+            break;
+        }
+        done += r;
+        if ((size_t)r < n) break;
+    }
+    trace(idx, "read", fd, NULL, (long)count, (long)done, done < 0 ? e : 0, (fault && done == want) ? fault : NULL);
+    errno = e;
+    return done;
+}
+
+/* Decision for a tracked write-like call of `count` bytes: returns -1 (fail, errno in *err), or the number of
+ * bytes to pass on (possibly shortened). */
+static long write_decision(long idx, const char *call, int fd, size_t count, const char **fault, int *err) {
+    struct entry *en = lookup(idx);
+    long want = (long)count;
+    *fault = NULL;
+    if (en) {
+        if (en->kind == K_CRASH) crash_now(idx, call, fd, NULL, (long)count);
+        if (en->kind == K_EINTR || en->kind == K_ERR) {
+            *err = en->kind == K_EINTR ? EINTR : (int)en->arg;
+            *fault = en->kind == K_EINTR ? "eintr" : "err";
+            return -1;
+        }
+        if (en->kind == K_SHORT && en->arg >= 1 && (size_t)en->arg < count) {
+            want = en->arg;
+            *fault = "short";
+        }
+    }
+    if (quota_left >= 0 && count > 0) {
+        if (disk_full || quota_left == 0) {
+            disk_full = 1;
+            *err = ENOSPC;
+            *fault = "err";
+            return -1;
+        }
+        if (want > quota_left) {
+            want = quota_left;
+            *fault = "short";
+            disk_full = 1;
+        }
+        quota_left -= want;
+    }
+    return want;
+}
+
 ssize_t write(int fd, const void *buf, size_t count) {
     init();
     if (fd < 0 || fd >= MAX_FD || !tracked[fd]) return real_write(fd, buf, count);
     long idx = call_index++;
-    struct entry *en = lookup(idx);
-    size_t want = count;
     const char *fault = NULL;
-    if (en) {
-        if (en->kind == K_CRASH) crash_now(idx, "write", fd, NULL, (long)count);
-        if (en->kind == K_EINTR || en->kind == K_ERR) {
-            int e = en->kind == K_EINTR ? EINTR : (int)en->arg;
-            trace(idx, "write", fd, NULL, (long)count, -1, e, en->kind == K_EINTR ? "eintr" : "err");
-            errno = e;
-            return -1;
-        }
-        if (en->kind == K_SHORT && en->arg >= 1 && (size_t)en->arg < count) {
-            want = (size_t)en->arg;
-            fault = "short";
-        }
+    int ferr = 0;
+    long want = write_decision(idx, "write", fd, count, &fault, &ferr);
+    if (want < 0) {
+        trace(idx, "write", fd, NULL, (long)count, -1, ferr, fault);
+        errno = ferr;
+        return -1;
     }
-    ssize_t r = real_write(fd, buf, want);
+    ssize_t r = real_write(fd, buf, (size_t)want);
     int e = errno;
     trace(idx, "write", fd, NULL, (long)count, (long)r, r < 0 ? e : 0, fault);
     errno = e;
     return r;
+}
+
+ssize_t pwrite64(int fd, const void *buf, size_t count, off_t off) {
+    init();
+    if (fd < 0 || fd >= MAX_FD || !tracked[fd]) return real_pwrite(fd, buf, count, off);
+    long idx = call_index++;
+    const char *fault = NULL;
+    int ferr = 0;
+    long want = write_decision(idx, "write", fd, count, &fault, &ferr);
+    if (want < 0) {
+        trace(idx, "write", fd, NULL, (long)count, -1, ferr, fault);
+        errno = ferr;
+        return -1;
+    }
+    ssize_t r = real_pwrite(fd, buf, (size_t)want, off);
+    int e = errno;
+    trace(idx, "write", fd, NULL, (long)count, (long)r, r < 0 ? e : 0, fault);
+    errno = e;
+    return r;
+}
+
+ssize_t pwrite(int fd, const void *buf, size_t count, off_t off) { return pwrite64(fd, buf, count, off); }
+
+ssize_t writev(int fd, const struct iovec *iov, int iovcnt) {
+    init();
+    if (fd < 0 || fd >= MAX_FD || !tracked[fd]) return real_writev(fd, iov, iovcnt);
+    size_t count = 0;
+    for (int i = 0; i < iovcnt; i++) count += iov[i].iov_len;
+    long idx = call_index++;
+    const char *fault = NULL;
+    int ferr = 0;
+    long want = write_decision(idx, "write", fd, count, &fault, &ferr);
+    if (want < 0) {
+        trace(idx, "write", fd, NULL, (long)count, -1, ferr, fault);
+        errno = ferr;
+        return -1;
+    }
+    /* pass on the first `want` bytes, buffer by buffer */
+    ssize_t done = 0;
+    int e = 0;
+    for (int i = 0; i < iovcnt && done < want; i++) {
+        size_t n = iov[i].iov_len;
+        if ((long)n > want - done) n = (size_t)(want - done);
+        if (n == 0) continue;
+        ssize_t r = real_write(fd, iov[i].iov_base, n);
+        if (r < 0) {
+            e = errno;
+            if (done == 0) done = -1;
+            break;
+        }
+        done += r;
+        if ((size_t)r < n) break;
+    }
+    trace(idx, "write", fd, NULL, (long)count, (long)done, done < 0 ? e : 0, fault);
+    errno = e;
+    return done;
 }
 
 int close(int fd) {
@@ -318,6 +515,153 @@ int close(int fd) {
     int r = real_close(fd);
     int e = errno;
     trace(idx, "close", fd, NULL, 0, r, r < 0 ? e : 0, NULL);
+    errno = e;
+    return r;
+}
+
+/* ---- status calls on tracked descriptors: an index space of their own ---------------------- */
+
+static int stat_fault(int fd, long *size_out, int *err_out) {
+    /* 0: no fault, 1: size lie, 2: error */
+    long k = stat_index++;
+    struct entry *en = lookup_stat(k);
+    if (!en) {
+        trace(call_index, "stat", fd, NULL, k, 0, 0, NULL);
+        return 0;
+    }
+    if (en->kind == K_STATERR) {
+        *err_out = (int)en->arg;
+        trace(call_index, "stat", fd, NULL, k, -1, *err_out, "err");
+        return 2;
+    }
+    *size_out = en->arg;
+    trace(call_index, "stat", fd, NULL, k, en->arg, 0, "sizelie");
+    return 1;
+}
+
+int statx(int dirfd, const char *path, int flags, unsigned int mask, struct statx *stx) {
+    init();
+    if (!real_statx) {
+        errno = ENOSYS;
+        return -1;
+    }
+    if (dirfd < 0 || dirfd >= MAX_FD || !tracked[dirfd] || !path || path[0] != 0) return real_statx(dirfd, path, flags, mask, stx);
+    long size = 0;
+    int err = 0;
+    int f = stat_fault(dirfd, &size, &err);
+    if (f == 2) {
+        errno = err;
+        return -1;
+    }
+    int r = real_statx(dirfd, path, flags, mask, stx);
+    if (r == 0 && f == 1) stx->stx_size = (unsigned long long)size;
+    return r;
+}
+
+int fstat(int fd, struct stat *st) {
+    init();
+    if (fd < 0 || fd >= MAX_FD || !tracked[fd]) return real_fstat ? real_fstat(fd, st) : (int)syscall(SYS_fstat, fd, st);
+    long size = 0;
+    int err = 0;
+    int f = stat_fault(fd, &size, &err);
+    if (f == 2) {
+        errno = err;
+        return -1;
+    }
+    int r = real_fstat ? real_fstat(fd, st) : (int)syscall(SYS_fstat, fd, st);
+    if (r == 0 && f == 1) st->st_size = (off_t)size;
+    return r;
+}
+
+int fstat64(int fd, struct stat64 *st) {
+    init();
+    if (fd < 0 || fd >= MAX_FD || !tracked[fd]) return real_fstat64 ? real_fstat64(fd, st) : (int)syscall(SYS_fstat, fd, st);
+    long size = 0;
+    int err = 0;
+    int f = stat_fault(fd, &size, &err);
+    if (f == 2) {
+        errno = err;
+        return -1;
+    }
+    int r = real_fstat64 ? real_fstat64(fd, st) : (int)syscall(SYS_fstat, fd, st);
+    if (r == 0 && f == 1) st->st_size = (off_t)size;
+    return r;
+}
+
+/* ---- calls the unchanged program does not make: traced, and failable with `err` ------------- */
+
+static int other_fault(long idx, const char *call, int fd, const char *path) {
+    struct entry *en = lookup(idx);
+    if (en) {
+        if (en->kind == K_CRASH) crash_now(idx, call, fd, path, 0);
+        if (en->kind == K_ERR || en->kind == K_EINTR) {
+            int e = en->kind == K_EINTR ? EINTR : (int)en->arg;
+            trace(idx, call, fd, path, 0, -1, e, en->kind == K_EINTR ? "eintr" : "err");
+            errno = e;
+            return 1;
+        }
+    }
+    return 0;
+}
+
+int rename(const char *from, const char *to) {
+    init();
+    if (!path_tracked(from) && !path_tracked(to)) return real_rename(from, to);
+    long idx = call_index++;
+    if (other_fault(idx, "rename", -1, to)) return -1;
+    int r = real_rename(from, to);
+    int e = errno;
+    trace(idx, "rename", -1, to, 0, r, r < 0 ? e : 0, NULL);
+    errno = e;
+    return r;
+}
+
+int unlink(const char *path) {
+    init();
+    if (!path_tracked(path)) return real_unlink(path);
+    long idx = call_index++;
+    if (other_fault(idx, "unlink", -1, path)) return -1;
+    int r = real_unlink(path);
+    int e = errno;
+    trace(idx, "unlink", -1, path, 0, r, r < 0 ? e : 0, NULL);
+    errno = e;
+    return r;
+}
+
+int ftruncate64(int fd, off_t len) {
+    init();
+    if (fd < 0 || fd >= MAX_FD || !tracked[fd]) return real_ftruncate(fd, len);
+    long idx = call_index++;
+    if (other_fault(idx, "ftruncate", fd, NULL)) return -1;
+    int r = real_ftruncate(fd, len);
+    int e = errno;
+    trace(idx, "ftruncate", fd, NULL, (long)len, r, r < 0 ? e : 0, NULL);
+    errno = e;
+    return r;
+}
+
+int ftruncate(int fd, off_t len) { return ftruncate64(fd, len); }
+
+int fsync(int fd) {
+    init();
+    if (fd < 0 || fd >= MAX_FD || !tracked[fd]) return real_fsync(fd);
+    long idx = call_index++;
+    if (other_fault(idx, "fsync", fd, NULL)) return -1;
+    int r = real_fsync(fd);
+    int e = errno;
+    trace(idx, "fsync", fd, NULL, 0, r, r < 0 ? e : 0, NULL);
+    errno = e;
+    return r;
+}
+
+int fdatasync(int fd) {
+    init();
+    if (fd < 0 || fd >= MAX_FD || !tracked[fd]) return real_fdatasync(fd);
+    long idx = call_index++;
+    if (other_fault(idx, "fsync", fd, NULL)) return -1;
+    int r = real_fdatasync(fd);
+    int e = errno;
+    trace(idx, "fsync", fd, NULL, 0, r, r < 0 ? e : 0, NULL);
     errno = e;
     return r;
 }
